@@ -310,6 +310,9 @@ func runC07(c c07Case, o gwOpts, mkTarget func(user string) gwc.Target) *Violati
 			defer wg.Done()
 			<-start
 			rogueErr = roguePairing(mkTarget("1"), o)
+			if rogueErr == "" && !o.TokenAuth {
+				rogueErr = roguePairingUsers(mkTarget, o)
+			}
 		}()
 	}
 	close(start)
@@ -437,4 +440,33 @@ func TestC07_RACE(t *testing.T) {
 		}
 		return v
 	})
+}
+
+// roguePairingUsers: two users and two identifiers chosen so that user name and identifier run together into the same
+// text ("1"+"1z7" and "11"+"z7"): different user, different identifier - the IN of the one must not be paired with the
+// OUT of the other.
+func roguePairingUsers(mkTarget func(user string) gwc.Target, o gwOpts) string {
+	freeIDMu.Lock()
+	freeIDCtr++
+	n := freeIDCtr
+	freeIDMu.Unlock()
+	victimID, rogueID := fmt.Sprintf("1z%d", n), fmt.Sprintf("z%d", n)
+	out, err := gwc.OpenOut(mkTarget("1"), victimID)
+	if err != nil {
+		return "rogue probe: OUT did not open: " + err.Error()
+	}
+	defer out.Close()
+	in, err := gwc.OpenInOnly(mkTarget("11"), rogueID)
+	if in != nil {
+		defer in.Close()
+	}
+	if err == nil {
+		in.Send(tsgu.Handshake(9, 9, 0, o.serverCaps()))
+		in.WaitInClosed(2 * time.Second)
+	}
+	out.Settle()
+	if s := out.Stream(); len(s) > 0 {
+		return fmt.Sprintf("a packet sent by user 11 on RDG_IN_DATA with identifier %q was answered on user 1's RDG_OUT_DATA connection of identifier %q (%d bytes)", rogueID, victimID, len(s))
+	}
+	return ""
 }
